@@ -301,7 +301,7 @@ pub fn run(tier: Tier, seed: u64) -> i32 {
     run.shards = 2;
     run.shrink_iters = 60;
     if !run.failed() {
-        run.random("bash", tier.pick(60, 3_000), 300, |b| case(b, true));
+        run.random("bash", tier.pick(60, 1_500), 300, |b| case(b, true));
     }
     run.shards = nshards();
     run.shrink_iters = 3000;
